@@ -118,6 +118,20 @@ def o_geo(case):
         if (tw.x, tw.y) != (ex, ey) or not isinstance(tw.x, float) or not isinstance(tw.y, float):
             return fail("C17/tower-after-origin", "tower %s of a configuration whose first tower sits on the reference origin is not at latlon_to_xy of its position" % tw.name,
                         None, [float(ex), float(ey)], [tw.x, tw.y], 0)
+    # a CLUSTER of masts a few metres apart (a profile mast next to the flux tower, two instruments whose positions differ in the fifth
+    # decimal, the same position listed twice under two names): every tower is at the transform of ITS OWN latitude / longitude
+    rr = np.random.default_rng(int(abs(lat * 1e6 + lon * 1e3)) % (1 << 31))
+    cl = [dict(name="a", lat=float(lat), lon=float(lon), z_m=2.0)]
+    for nm in "bcde":
+        mag = float(10.0 ** rr.uniform(-7, -4.05))
+        cl.append(dict(name=nm, lat=float(lat + mag * rr.uniform(-1, 1)), lon=float(lon + mag * rr.uniform(-1, 1)), z_m=3.0))
+    cl.append(dict(name="twin", lat=float(lat), lon=float(lon), z_m=9.0))
+    cfg5 = parse_config_dict(dict(domain=dict(nx=4, ny=4, xmax=10.0, ymax=10.0, nz=3, ref_lat=rlat, ref_lon=rlon), towers=cl, met=dict(ustar=0.3)))
+    for tw, dd in zip(cfg5.towers, cl):
+        ex, ey = latlon_to_xy(dd["lat"], dd["lon"], rlat, rlon)
+        if (tw.x, tw.y) != (ex, ey) or (tw.lat, tw.lon) != (dd["lat"], dd["lon"]):
+            return fail("C17/tower-cluster", "tower %s of a cluster of masts a few metres apart (%.7f, %.7f) is not at the transform of its own position" % (tw.name, dd["lat"], dd["lon"]),
+                        None, [float(ex), float(ey)], [tw.x, tw.y], 0)
     t.compute_local_xy(new_ref[0], new_ref[1])
     if (t.x, t.y) != tuple(latlon_to_xy(t.lat, t.lon, new_ref[0], new_ref[1])):
         return fail("C17/tower-rewired", "compute_local_xy called for a second origin does not give the coordinates relative to that origin", None,
